@@ -11,8 +11,9 @@ import (
 )
 
 type CmpCtx struct {
-	Resp    int   // protocol version of the connection
-	SlackMs int64 // tolerance for clock-dependent integers, in ms
+	Resp     int   // protocol version of the connection
+	SlackMs  int64 // tolerance for clock-dependent integers, in ms
+	FullScan bool  // the request was a SCAN/SSCAN/HSCAN from cursor 0: a reply with cursor 0 is a complete iteration
 }
 
 func errCode(b []byte) string {
@@ -331,6 +332,29 @@ func matchReply(m *Sx, g *Node, ctx CmpCtx) error {
 			for _, e := range items {
 				if !cands[canonNode(e)] {
 					return bad("scan returned a non-member")
+				}
+			}
+		}
+		if ctx.FullScan && string(g.Elems[0].Str) == "0" {
+			// one call from cursor 0 back to cursor 0 is a full iteration: everything that matches was returned
+			n := len(items)
+			if paired {
+				n /= 2
+			}
+			seen := map[string]bool{}
+			if paired {
+				p, _ := pairStrings(items)
+				for _, s := range p {
+					seen[s] = true
+				}
+			} else {
+				for _, e := range items {
+					seen[canonNode(e)] = true
+				}
+			}
+			for c := range cands {
+				if !seen[c] {
+					return bad(fmt.Sprintf("a full iteration (cursor 0 to cursor 0) returned %d of %d matching elements: missing", len(seen), len(cands)))
 				}
 			}
 		}
